@@ -436,7 +436,7 @@ func c28Worker(w *WorkerCtx) {
 			if firstViolation != nil {
 				cu, _ := json.Marshal(c28Custom{Item: *it, Engine: engine, Faults: firstFaults})
 				rf := &ReplayFile{Property: "C28", Oracle: firstViolation.Oracle, VerifSeed: int64(w.Seed), Tier: w.Tier, Minimised: true, Kind: "c28", Custom: cu, Violation: firstViolation}
-				res.Replay = WriteReplay(filepath.Join(verifDir(), "replay"), rf, fmt.Sprintf("%s-%s", it.Name, engine))
+				res.Replay = WriteReplay(filepath.Join(outDir(), "replay"), rf, fmt.Sprintf("%s-%s", it.Name, engine))
 				res.Violations = append([]Violation{*firstViolation}, res.Violations...)
 			}
 			w.Emit(res)
